@@ -9,6 +9,8 @@ NOTES = ("Model-based verification with explicit TLA+ specifications (spec/*.tla
          "Exit 0 held / 1 VIOLATION / 2 tool error. See DESIGN.md.")
 
 ENGINES = [
+    {"name": "h-rpc", "path": "harness/h-rpc", "serves_properties": ["C12", "C13"],
+     "kind_free_text": "Rust conformance harness for datacake-rpc: real Server/RpcClient on loopback, frame mutation recorder"},
     {"name": "tlc", "path": "/opt/veriftools/tla/tla2tools.jar", "serves_properties": [],
      "kind_free_text": "explicit-state model checker for the TLA+ modules in spec/"},
     {"name": "h-crdt", "path": "harness/h-crdt", "serves_properties": ["C03", "C04", "C05", "C08", "C09", "C10"],
@@ -73,4 +75,22 @@ CHECKS = {
               "will_apply() and mutators on every distinct state."),
         design_ref="DESIGN.md section 7 C05",
         note="Same bounds as C03. The actor/poller level of the exchange is covered by the Keyspace/Cluster models."),
+    "C12": dict(
+        engine="tlc + h-rpc",
+        technique="TLC model checking of a toy bit-level framing model + TLC trace validation of exhaustive per-frame mutations run through the real DataView::using, a real server and a real client",
+        text=("RpcFrame.tla states the acceptance rule (length >= fixed part + trailer, checksum matches) and checks at toy scale (real CRC-3) "
+              "that it refuses every single-bit flip and every short frame and that one request/reply exchange over a damaging network never runs a "
+              "handler on a refused frame. The harness produces real frames with to_view_bytes, applies every bit flip, truncation and small "
+              "extension, feeds them to the real DataView::using (catch_unwind), posts damaged frames to a real server counting handler runs, and "
+              "round-trips values and handler errors through the real client; Trace_RpcFrame.tla validates every event against the rule."),
+        design_ref="DESIGN.md section 7 C12",
+        note="Per-frame exhaustive up to 2 KiB (4 KiB thorough), sampled above; value space sampled. Memory safety itself is not observed (section 11)."),
+    "C13": dict(
+        engine="tlc + h-rpc",
+        technique="TLC exhaustive enumeration of add/remove histories on RpcRegistry.tla + replay of every history on a real Server with real clients",
+        text=("RpcRegistry.tla models services -> handler keys and the handler table with add/remove; TLC checks served <=> registered after every step "
+              "for all 6^L histories over three services (two sharing a message type, one with two) and emits every history with the oracle's expectation "
+              "per step; each is replayed on a fresh real Server on loopback and all six (service, message) pairs are probed after every step."),
+        design_ref="DESIGN.md section 7 C13",
+        note="L = 4 quick / 6 thorough. Handler-key hash collisions are outside the model."),
 }
